@@ -106,6 +106,10 @@ func (c *cache) get(logRange dragonboat.LogRange) ([]raftpb.Entry, dragonboat.Lo
 	end := findIndex(c.buffer, func(index uint64) bool { return index >= logRange.LastIndex })
 
 	entries := c.buffer[start:end]
+	if len(entries) == 0 {
+		// The queried range ends right where the cache begins, none of the queried entries are cached.
+		return nil, logRange, appendIndices
+	}
 
 	if len(entries) != 0 {
 		if logRange.FirstIndex < smallestIndex {
